@@ -244,6 +244,9 @@ def generate(rng, tier):
         for x in (P, P + 1, 2 * P + 1, 5 * P - 1, (1 << 32) - 1, (1 << 64) + 5):
             if x < lim:
                 g.op("val", x)
+        if not small:                 # arbitrary-precision elements: negative integers of any size are converted too
+            for x in (-1, -2, -P + 1, -P, -P - 1, -2 * P, -3 * P - 1, -(1 << 31), -(1 << 63), -(1 << 70) - 3):
+                g.op("val", x)
         if machine and P < (1 << 31):
             for x in signed_values(P, 32):
                 g.op("val_i", x)
